@@ -42,9 +42,9 @@ def run(ctx):
         ctx.stat('K-identity', 'iflr_records', len(d.iflrs()))
         ctx.count('K-identity', key=(k, nobj, nref))
         judge.check_identity_refs(ctx, d, det)
-        exp = judge.expected_objects(prog, r['outs'])
+        exp = judge.expected_at(prog, r['outs'], step)
         if exp:
-            judge.check_fidelity(ctx, d, exp[-1], det)       # references decode to the object the program passed
+            judge.check_fidelity(ctx, d, exp, det)       # references decode to the object the program passed
         if k % 13 == 0:
             ctx.sample({'stream': 'K-identity', 'flavor': flavor, 'objects': nobj, 'references': nref})
     # the known finding D13: same name in two named sets of one type
